@@ -255,7 +255,7 @@ def snapshot_dir(root):
     return out
 
 
-def run_cli(argv, cwd, env=None, timeout=20.0, stdin=None, home=None):
+def run_cli(argv, cwd, env=None, timeout=20.0, stdin=None, home=None, merge=False):
     """Run the real ucg binary under a scrubbed environment.  Returns an event dict."""
     e = {"PATH": "/usr/bin:/bin"}
     if home is None:
@@ -267,8 +267,10 @@ def run_cli(argv, cwd, env=None, timeout=20.0, stdin=None, home=None):
     t0 = time.monotonic()
     ev = {"argv": list(argv), "cwd": cwd, "env": {k: v for k, v in e.items() if k not in ("PATH",)}}
     try:
-        p = subprocess.run([UCG] + list(argv), cwd=cwd, env=e, stdout=subprocess.PIPE, stderr=subprocess.PIPE,
-                           timeout=timeout, input=stdin)
+        # merge=True: stderr goes to the same pipe as stdout (stdout is line buffered, stderr unbuffered, so
+        # the order of the lines is the order in which they were written)
+        p = subprocess.run([UCG] + list(argv), cwd=cwd, env=e, stdout=subprocess.PIPE,
+                           stderr=subprocess.STDOUT if merge else subprocess.PIPE, timeout=timeout, input=stdin)
         rc = p.returncode
         ev["exit"] = rc if rc >= 0 else None
         ev["signal"] = None
@@ -278,7 +280,7 @@ def run_cli(argv, cwd, env=None, timeout=20.0, stdin=None, home=None):
             except ValueError:
                 ev["signal"] = "SIG%d" % -rc
         ev["stdout"] = p.stdout.decode("utf-8", "replace")
-        ev["stderr"] = p.stderr.decode("utf-8", "replace")
+        ev["stderr"] = (p.stderr or b"").decode("utf-8", "replace")
         ev["stdout_b"] = p.stdout
     except subprocess.TimeoutExpired as te:
         ev["exit"] = None
